@@ -34,10 +34,15 @@ pub mod vmul;
 pub mod vgend;
 #[path = "dupcast.rs"]
 pub mod dupcast;
+#[path = "vgenc.rs"]
+pub mod vgenc;
+#[path = "callargs.rs"]
+pub mod callargs;
 
 use crate::compile_util::*;
 use crate::util::*;
 use rssl::ir;
+use std::collections::HashMap;
 use sx::*;
 use vconv::*;
 use virev::*;
@@ -248,6 +253,8 @@ fn lit_only(e: &Sx) -> bool {
         "lit" => e.args()[0].atom() == "int",
         "un" => matches!(e.args()[0].atom(), "Minus" | "Plus" | "BitwiseNot") && lit_only(&e.args()[1]),
         "bin" => lit_only(&e.args()[1]) && lit_only(&e.args()[2]),
+        // `c ? 31 : -2147483647` between two literals is still the exact literal int in RSSL (and `int` in Metal)
+        "tern" => e.args().len() == 3 && lit_only(&e.args()[1]) && lit_only(&e.args()[2]),
         _ => false,
     }
 }
@@ -327,6 +334,20 @@ pub fn run_program(src: &str, only: Option<(&str, &[Vec<VV>])>, nvec: usize, rng
         Ok(Err(e)) => hist.add(&format!("v:diagnostic:{}", one_line(&format!("{:?}", e)).split('(').nth(1).unwrap_or("?").trim_end_matches(')'))),
         Err(_) => hist.add("v:exporter-panic"),
     }
+    // arity oracle (independent of both evaluators, so it also judges modules the typed evaluator does not cover): every
+    // emitted call of a function / method of the module binds every parameter of a declaration of that name
+    let lost_defaults = callargs::callees_with_lost_default(&p.ir);
+    let arity: Vec<(Option<String>, String)> = module_sx
+        .as_ref()
+        .map(|items| arity_failures(items))
+        .unwrap_or_default()
+        .into_iter()
+        .map(|(encl, callee, msg)| {
+            // the typed program itself has no value for the left-out parameter (the default stayed on the forward declaration)
+            let lost = lost_defaults.iter().any(|n| n == &callee || emitted_leaf_of(&p, n).as_deref() == Some(callee.as_str()));
+            (encl, if lost { format!("class:{} ## {}", C_LOST_DEFAULT, msg) } else { msg })
+        })
+        .collect();
     let irv = if ir_unsupported.is_none() { IrV::new(&p.prog) } else { None };
     let ir_init = irv.as_ref().and_then(|ev| ev.init_globals());
     let fmod_builtin = prog_text.contains("(intr Fmod ");
@@ -488,6 +509,13 @@ pub fn run_program(src: &str, only: Option<(&str, &[Vec<VV>])>, nvec: usize, rng
         if let Some(u) = &ir_unsupported {
             hist.add(&format!("v:unsupported:{}", u));
         }
+        for (encl, msg) in &arity {
+            // a call inside a method fails every request of the module (methods are not requests of their own)
+            if encl.as_deref().map(|e| e == emitted_name).unwrap_or(true) {
+                hist.add("v:arity:fail");
+                fails.push(msg.clone());
+            }
+        }
         // text leg: the emitted TEXT of this function denotes the tree that was just judged
         if let Some(t) = &text_leg {
             if let Some(tf) = t.fails_for(emitted_name).into_iter().next() {
@@ -502,6 +530,75 @@ pub fn run_program(src: &str, only: Option<(&str, &[Vec<VV>])>, nvec: usize, rng
         };
         out.case(&req, &obs, &oracle);
     }
+}
+
+fn last_component(name: &str) -> &str {
+    name.rsplit("::").next().unwrap_or(name)
+}
+
+/// (enclosing top-level function, or None inside a method; what is wrong) for every emitted call `f(..)` / `o.f(..)` whose name
+/// is the name of functions / methods defined in the module, none of which takes that many arguments: more arguments than
+/// parameters, or a parameter without default value left without argument
+pub const C_LOST_DEFAULT: &str = "default-value-of-forward-declaration-lost";
+
+/// emitted leaf name of the function with the given source name
+fn emitted_leaf_of(p: &MPrepared, src_name: &str) -> Option<String> {
+    p.funcs.iter().find(|(_, s, _)| s == src_name).map(|(_, _, e)| last_component(e).to_string())
+}
+
+pub fn arity_failures(items: &[Sx]) -> Vec<(Option<String>, String, String)> {
+    // name (last component) -> (parameters, parameters without default value) of every definition
+    let mut defs: HashMap<String, Vec<(usize, usize, String)>> = HashMap::new();
+    fn collect(s: &Sx, defs: &mut HashMap<String, Vec<(usize, usize, String)>>) {
+        if let Sx::L(items) = s {
+            if s.head() == "fn" && s.args().len() >= 3 && s.args()[2].head() == "params" {
+                let ps = s.args()[2].args();
+                let required = ps.iter().rposition(|p| !(p.head() == "val" && p.args().len() == 3)).map(|i| i + 1).unwrap_or(0);
+                defs.entry(last_component(s.args()[0].atom()).to_string()).or_default().push((ps.len(), required, s.args()[2].show()));
+            }
+            if matches!(s.head(), "struct" | "method" | "fn" | "namespace") {
+                for i in items {
+                    collect(i, defs);
+                }
+            }
+        }
+    }
+    for i in items {
+        collect(i, &mut defs);
+    }
+    let types: Vec<String> = items.iter().filter(|i| matches!(i.head(), "struct" | "enum")).map(|i| i.args().first().map(|n| last_component(n.atom()).to_string()).unwrap_or_default()).collect();
+    fn walk(s: &Sx, encl: &Option<String>, defs: &HashMap<String, Vec<(usize, usize, String)>>, types: &[String], out: &mut Vec<(Option<String>, String, String)>) {
+        if let Sx::L(items) = s {
+            let (name, nargs) = match s.head() {
+                "call" if !s.args().is_empty() => (Some(s.args()[0].atom()), s.args().len() - 1),
+                "mcall" if s.args().len() >= 2 => (Some(s.args()[1].atom()), s.args().len() - 2),
+                _ => (None, 0),
+            };
+            if let Some(name) = name {
+                let key = last_component(name);
+                if !name.starts_with("metal::") && !types.iter().any(|t| t == key) {
+                    if let Some(cands) = defs.get(key) {
+                        if !cands.iter().any(|(n, required, _)| nargs <= *n && nargs >= *required) {
+                            out.push((
+                                encl.clone(),
+                                key.to_string(),
+                                format!("emitted call {} passes {} argument(s), but no declaration of {} binds every parameter with that many: {}", s.show(), nargs, key, cands.iter().map(|c| c.2.clone()).collect::<Vec<_>>().join(" / ")),
+                            ));
+                        }
+                    }
+                }
+            }
+            for i in items {
+                walk(i, encl, defs, types, out);
+            }
+        }
+    }
+    let mut out = Vec::new();
+    for i in items {
+        let encl = if i.head() == "fn" { Some(i.args()[0].atom().to_string()) } else { None };
+        walk(i, &encl, &defs, &types, &mut out);
+    }
+    out
 }
 
 fn unescape(s: &str) -> String {
@@ -552,6 +649,9 @@ pub fn run_request(line: &str, out: &mut Out, hist: &mut Hist) {
 /// the k-th program of the vector stream for a seed: C01's generator, matrices only in the forms the Metal backend accepts
 pub fn vprogram(seed: u64, k: u64) -> String {
     let mut rng = Rng::new(seed.wrapping_mul(0x2545_F491_4F6C_DD1D) ^ k.wrapping_mul(0x9E37_79B9_7F4A_7C15) ^ 0x6d766563);
+    if k >= CALL_BASE {
+        return vgenc::call_program(k - CALL_BASE, &mut rng).0;
+    }
     if k >= DUP_BASE {
         return vgend::dup_program(k - DUP_BASE, &mut rng).0;
     }
@@ -567,13 +667,23 @@ pub fn vprogram(seed: u64, k: u64) -> String {
 
 /// programs from `DUP_BASE` on: the operand-repetition family (`vgend.rs`)
 pub const DUP_BASE: u64 = 1_000_000;
+/// programs from `CALL_BASE` on: calls that leave out default arguments of callees that use threaded globals (`vgenc.rs`)
+pub const CALL_BASE: u64 = 2_000_000;
 
 pub fn run_stream(args: &Args, out: &mut Out, hist: &mut Hist) {
     let n = if args.thorough() { 4000 } else { 300 };
     let nd = vgend::enumerated_len() + if args.thorough() { 1500 } else { 100 };
-    for k in (0..n).chain(DUP_BASE..DUP_BASE + nd) {
+    let nc = vgenc::enumerated_len() + if args.thorough() { 1200 } else { 60 };
+    for k in (0..n).chain(DUP_BASE..DUP_BASE + nd).chain(CALL_BASE..CALL_BASE + nc) {
         let src = vprogram(args.seed, k);
-        if k >= DUP_BASE {
+        if k >= CALL_BASE {
+            let mut trng = Rng::new(args.seed.wrapping_mul(0x2545_F491_4F6C_DD1D) ^ k.wrapping_mul(0x9E37_79B9_7F4A_7C15) ^ 0x6d766563);
+            hist.add(&vgenc::call_program(k - CALL_BASE, &mut trng).1);
+            // the argument list of every user call against the Lean model of generate_user_call
+            if let Err(pn) = guard(|| callargs::run_program(&src, out, hist)) {
+                out.case(&format!("C02.call\t{}\t-", one_line(&src)), "harness-panic", &format!("SKIP:harness panic {}", pn));
+            }
+        } else if k >= DUP_BASE {
             let mut trng = Rng::new(args.seed.wrapping_mul(0x2545_F491_4F6C_DD1D) ^ k.wrapping_mul(0x9E37_79B9_7F4A_7C15) ^ 0x6d766563);
             hist.add(&vgend::dup_program(k - DUP_BASE, &mut trng).1);
             // the decision of the struct-cast arm against its Lean model
